@@ -88,7 +88,7 @@ static std::vector<Op> buildAlphabet(const std::string& name, Limits& L, const s
         A.push_back(opPoint("A", L)); A.push_back(opRate("POINT", 100.f)); A.push_back(opFrame("ok", "app", 0, L));
     } else if (name == "lookup") {  // C11: containers of every size 0..N
         L.maxFrames = thorough ? 3 : 2; L.maxPoints = thorough ? 3 : 2; L.maxChans = 2; L.maxGroups = 5; L.noColumnsOnGaps = true;
-        for (auto n : {"A", "B", "A ", "b", "  ", "T\t"}) A.push_back(opPoint(n, L));
+        for (auto n : {"A", "B", "A ", "b", "  ", "T\t", "a b"}) A.push_back(opPoint(n, L));
         for (auto n : {"a", "a ", "B", " "}) A.push_back(opAnalog(n, L));
         A.push_back(opRate("POINT", 100.f)); A.push_back(opRate("ANALOG", 200.f)); A.push_back(opRate("ANALOG", 100.f));
         A.push_back(opFrame("ok", "app", 0, L)); A.push_back(opFrame("ok", "n+1", 2, L));
